@@ -69,6 +69,17 @@ def _pass3(vals):
                          gap=2e-3, **vals)
 
 
+def _pass3_roll(vals):
+    from pyroll.core import ThreeRollPass, Roll, CircularOvalGroove
+    rp = ThreeRollPass(label="p3", roll=Roll(groove=CircularOvalGroove(depth=8e-3, r1=6e-3, r2=40e-3, pad_angle=30), nominal_radius=0.16, **vals), gap=2e-3)
+    _KEEP.append(rp)
+    del _KEEP[:-4]
+    return rp.roll
+
+
+_KEEP = []
+
+
 def _pass_with_roll(neutral_point):
     def f(vals):
         from pyroll.core import RollPass, Roll, CircularOvalGroove
@@ -128,6 +139,15 @@ def groups(rng):
     na = -rng.uniform(0.01, 0.1)
     out.append(('pass roll neutral point/angle', _pass_roll, ['neutral_point', 'neutral_angle'],
                 {'neutral_point': math.sin(na) * wr, 'neutral_angle': na}, lambda S: len(S) >= 1))
+    wr3 = _pass3_roll({}).working_radius
+    out.append(('three-roll pass roll neutral point/angle', _pass3_roll, ['neutral_point', 'neutral_angle'],
+                {'neutral_point': math.sin(na) * wr3, 'neutral_angle': na}, lambda S: len(S) >= 1))
+    # a target beyond the usable width (an overfilled pass is a target like any other): width and ratio stay interchangeable
+    fro = rng.uniform(1.02, 1.12)
+    out.append(('pass target width/filling ratio (overfilled)', _pass, ['target_width', 'target_filling_ratio'],
+                {'target_width': fro * uw, 'target_filling_ratio': fro}, lambda S: True))
+    out.append(('three-roll pass target width/filling ratio (overfilled)', _pass3, ['target_width', 'target_filling_ratio'],
+                {'target_width': fro * uw3, 'target_filling_ratio': fro}, lambda S: True))
     return out
 
 
